@@ -228,10 +228,11 @@ Family(name, tier) ==
                                        {<<FALSE, FALSE>>, <<TRUE, FALSE>>, <<FALSE, TRUE>>},
                                        {<<>>, <<1, 2>>}, {<<>>},
                                        {"TSLACK", "SPT"}, {"SSP", "HSV"})
-                         ELSE FamAlloc([1..3 -> {<<1>>, <<1, 2>>}], {-1, 0, 1}, {0, 1, 2},
-                                       [1..2 -> BOOLEAN], {<<>>, <<0>>, <<1, 2>>},
-                                       {<<>>, <<<<1, 2, "FS">>>>},
-                                       {"TSLACK", "LPT", "FIFO", "SRPT"}, {"SSP", "HSV", "VC"})
+                         ELSE FamAlloc({<<<<1, 2>>, <<1, 2>>, <<1, 2>>>>, <<<<1>>, <<1, 2>>, <<1, 2>>>>,
+                                        <<<<1, 2>>, <<1, 2>>, <<1>>>>}, {-1, 0, 1}, {0, 1, 2},
+                                       {<<FALSE, FALSE>>, <<TRUE, FALSE>>, <<FALSE, TRUE>>},
+                                       {<<>>, <<1, 2>>}, {<<>>, <<<<1, 2, "FS">>>>},
+                                       {"TSLACK", "LPT", "FIFO"}, {"SSP", "HSV", "VC"})
     [] name = "abs"   -> IF tier = 1
                          THEN FamAbsence({<<>>, <<0>>, <<1, 2>>, <<0, 3, 30>>})
                          ELSE FamAbsence({<<>>, <<0>>, <<1>>, <<1, 2>>, <<0, 1, 2>>, <<2, 4>>,
